@@ -4,12 +4,12 @@ package main
 // action functions compiled into grammar/grammar.go.
 
 import (
-	"go/scanner"
 	"bytes"
 	"fmt"
 	"go/ast"
 	"go/parser"
 	"go/printer"
+	"go/scanner"
 	"go/token"
 	"go/types"
 	"os"
